@@ -1,17 +1,31 @@
 #!/bin/bash
-# tools/mutants_all.sh [Cxx ...] -- apply every kept mutant (mutants/<pid>/*.patch) and seeded change (seeded/*/patch.diff with meta.json "property")
-# to /repo in turn, run the named property's quick check, revert; print one line per patch: caught / MISSED / does-not-apply
+# tools/mutants_all.sh [Cxx ...|seeded|mutants] -- apply every kept mutant (mutants/<pid>/*.patch) and every seeded change
+# (seeded/<id>/patch.diff, property taken from its meta.json) to /repo in turn, run the named property's quick check, revert;
+# prints one line per patch: caught / MISSED / DOES-NOT-APPLY.  Run it only when nothing else is using /repo.
 cd "$(dirname "$(readlink -f "$0")")/.."
 if ! git -C /repo diff --quiet; then echo "/repo dirty"; exit 3; fi
-sel="$*"
-for p in mutants/*/*.patch; do
-  pid=$(basename "$(dirname "$p")")
-  if [ -n "$sel" ] && ! echo " $sel " | grep -q " $pid "; then continue; fi
-  abs=$(readlink -f "$p")
-  if ! git -C /repo apply --check "$abs" 2>/dev/null; then echo "$pid $(basename $p): DOES-NOT-APPLY"; continue; fi
+sel=" $* "
+run_one() {  # label pid patch
+  local label=$1 pid=$2 abs; abs=$(readlink -f "$3")
+  if ! git -C /repo apply --check "$abs" 2>/dev/null; then echo "$label: DOES-NOT-APPLY"; return; fi
   git -C /repo apply "$abs"
   out=$(./check "$pid" --tier quick 2>&1); rc=$?
   git -C /repo checkout -- .
-  if [ $rc -eq 1 ]; then echo "$pid $(basename $p): caught ($(echo "$out" | grep -c VIOLATION) violation lines)"; 
-  elif [ $rc -eq 0 ]; then echo "$pid $(basename $p): MISSED"; else echo "$pid $(basename $p): rc=$rc $(echo "$out" | tail -1)"; fi
-done
+  if [ $rc -eq 1 ]; then echo "$label: caught by $pid ($(echo "$out" | grep -c VIOLATION) violation lines; first: $(echo "$out" | grep -m1 VIOLATION | sed 's/.*# //' | cut -c1-110))";
+  elif [ $rc -eq 0 ]; then echo "$label: MISSED by $pid"; else echo "$label: rc=$rc $(echo "$out" | tail -1)"; fi
+}
+if [ "$sel" = "  " ] || echo "$sel" | grep -q " mutants " || echo "$sel" | grep -qE " C[0-9]+ "; then
+  for p in mutants/*/*.patch; do
+    pid=$(basename "$(dirname "$p")")
+    if echo "$sel" | grep -qE " C[0-9]+ " && ! echo "$sel" | grep -q " $pid "; then continue; fi
+    run_one "mutants/$pid/$(basename "$p" .patch)" "$pid" "$p"
+  done
+fi
+if [ "$sel" = "  " ] || echo "$sel" | grep -q " seeded " || echo "$sel" | grep -qE " C[0-9]+ "; then
+  for d in seeded/*/; do
+    id=$(basename "$d")
+    pid=$(/venv/bin/python -c "import json,sys;print(json.load(open(sys.argv[1]))['property'])" "$d/meta.json")
+    if echo "$sel" | grep -qE " C[0-9]+ " && ! echo "$sel" | grep -q " $pid "; then continue; fi
+    run_one "seeded/$id" "$pid" "$d/patch.diff"
+  done
+fi
